@@ -21,6 +21,8 @@ CLAIMED = {
  "C27": ("exploration", "every formula-based strategy over both transports; per peer invocation the file text in SimFS, what the library's parser delivered, the peer's model and what the library claims it answered are recorded together with the intended CNF object; strict DIMACS oracle, parser = text, claimed solution = model, successive files differ by exactly the blocking clause; EIO/ENOSPC injected", "protocol conformance over the recorded file/peer history", "6 C27"),
  "C28": ("exploration", "fake Gurobi peer reads each round's OPB text from SimFS and answers by the peer policy; ILP solution set = SAT solution set on generated clause sets with EQ/LT/GT requests (brute-force documented meaning as referee) and on generated designs; each appended OPB constraint excludes exactly the previous solution", "fake ILP peer + two-realisations-agree oracle", "6 C28"),
  "C29": ("exploration", "histories of 1-4 SMGen calls over its process-global state; scattered_map_core.random scripted; virtual clock advanced per traced line; the fake threading.Timer fires clock-driven or pinned to an instant after arming and its handler is delivered in a helper thread (production) or in the main thread; user abort injected at a traced line; every returned sequence checked against the reference semantics", "virtual clock + timer/pre-emption scheduler (sys.settrace line events) + reference-model oracle", "6 C29"),
+ "C18": ("exploration", "histories of constructor calls over one pool of shared factor/constraint Python objects (CrossBlock of different geometry, Repeat, Merge, Nest, in seeded order) interleaved with exhaust and mismatch queries; reference = the same expression built alone from fresh objects", "history over shared mutable objects + fresh-twin reference", "6 C18"),
+ "C22": ("exploration", "designs with continuous factors; every continuous draw goes through the scripted PRNG and the script decides which whole-sequence attempt satisfies the ContinuousConstraint; returned values re-derived from the returned rows (same-trial inputs, ContinuousFactorWindow with NaN rules, cumulative sums per sequence); exact attempt count as bounded liveness", "scripted PRNG ('bad luck' fault placement) + recomputation oracle", "6 C22"),
 }
 
 NA = {
